@@ -151,7 +151,10 @@ def cases(draw):
                  "${v}", "${v}!", nl, "  ",
                  # text that looks like an encoding declaration but is not
                  '<i encoding="latin-1">e</i>', " encoding='utf-16' ",
-                 '<meta name="x" content="y">', "charset=koi8-r"]),
+                 '<meta name="x" content="y">', "charset=koi8-r",
+                 # a meta element that is commented out
+                 '<!-- <meta http-equiv="Content-Type" content="text/html; '
+                 'charset=koi8-r" /> -->']),
         min_size=1, max_size=8))
     return {
         "encoding": enc, "bom": bom, "announce": announce, "xml": xml,
@@ -161,6 +164,10 @@ def cases(draw):
         "flag": draw(st.booleans()),
         "cls": draw(st.sampled_from(["str", "str", "file"])),
         "lead": lead, "lies": lies,
+        # an old meta element left behind in a comment (before the real
+        # one, if there is one) names another encoding
+        "stale_meta": draw(st.sampled_from([None, None, None] + [
+            ENCODINGS[e][0][0] for e in others])) if not wide else None,
         # a long comment in the head pushes the meta element far into the
         # document
         "pad": draw(st.sampled_from([0, 0, 0, 900, 1100, 5000])),
@@ -173,6 +180,9 @@ def document(case):
     if case["decl"]:
         parts.append(case["decl"] + nl)
     parts.append("<html><head>")
+    if case.get("stale_meta"):
+        parts.append('<!-- <meta http-equiv="content-type" content="text/html'
+                     '; charset=%s"> -->' % case["stale_meta"])
     if case.get("pad"):
         parts.append("<!-- " + "licence text " * (case["pad"] // 13) + "-->")
     if case["meta"]:
